@@ -28,6 +28,16 @@ def stores_in(fn):
 PTHREAD_CREATE_JOINABLE, PTHREAD_CREATE_DETACHED = 0, 1
 
 
+def raw_flag_reaches_native(u, cf):
+    """the creating function hands its joinable parameter to the native constructor as it came (no `!!`, no comparison)"""
+    ps = cf.param_names()
+    for (b, i, c) in cf.calls():
+        if c.get("callee") == "p_uthread_create_internal" and len(c.get("args", ())) > 1:
+            a = strip_casts(c["args"][1])
+            return a is not None and a["k"] == "ref" and a.get("decl") == "param" and a["name"] in ps
+    return False
+
+
 def run(prog, rep):
     rep.rule("C05.1", "start-up handshake: native create and all initialising stores happen under the creation spinlock; the new thread reads the creator-initialised fields only after passing the same spinlock")
     rep.rule("C05.2", "reference protocol: created handles start with 2 references (creator + running thread), adopted ones with 1; ref_count is otherwise touched only by atomic inc / dec_and_test; the handle is released exactly when dec_and_test reports zero; the thread's own reference is dropped by the destructor of the library TLS slot")
@@ -374,6 +384,13 @@ def run(prog, rep):
             if (vt, vf) != (PTHREAD_CREATE_JOINABLE, PTHREAD_CREATE_DETACHED):
                 okd, msgd = False, ("line %d: the native detach state is %s for a joinable handle and %s for a non-joinable one (JOINABLE = 0, DETACHED = 1): "
                                     "join waits on a detached native thread, or a detached-by-request thread is never reaped" % (line(sd[0]), vt, vf))
+            elif raw_flag_reaches_native(u, cf) and state_for(2) != PTHREAD_CREATE_JOINABLE:
+                # pboolean is an int and p_uthread_join refuses only `joinable == FALSE`: every true value is a joinable handle, so every
+                # true value must give a joinable native thread (`joinable == TRUE ? JOINABLE : DETACHED` detaches the thread for 2 or -1,
+                # and join then returns at once with code 0)
+                okd, msgd = False, ("line %d: for a true joinable argument other than 1 the native thread is created %s, while p_uthread_join accepts every handle whose flag "
+                                    "is not FALSE: join on it fails inside pthread_join and returns 0 while the thread still runs" % (
+                                        line(sd[0]), "detached" if state_for(2) == PTHREAD_CREATE_DETACHED else "with detach state %s" % state_for(2)))
             else:
                 for c_ in pc:
                     if root_var(sd[0]["args"][0]) != root_var(c_["args"][1]) or cv(c_["args"][1]) == 0:
@@ -585,6 +602,8 @@ def run(prog, rep):
 RENAME_LOCALS = ['src/puthread.c', 'src/puthread-posix.c']
 
 SELFTEST = [
+    dict(id="detach-state-compares-with-true", file="src/puthread-posix.c", expect="C05.3",
+         old="joinable ? PTHREAD_CREATE_JOINABLE", new="joinable == TRUE ? PTHREAD_CREATE_JOINABLE"),
     dict(id="eperm-retry-result-dropped", file="src/puthread-posix.c", expect="C05.2",
          old="#  endif\n\t\tcreate_code = pthread_create (&ret->hdl, &attr, func, ret);\n\t}", new="#  endif\n\t\tpthread_create (&ret->hdl, &attr, func, ret);\n\t}"),
     dict(id="creation-spinlock-never-created", file="src/puthread.c", expect="C05.1",
